@@ -58,9 +58,15 @@ QuadOK(e) ==
 \* forward quotient Q* of the evaluated points computed in double-double (entries of other variables: 8 eps |f| / delta); same discipline fields
 SmoothOK(e) == ~e.panic /\ e.r = e.m /\ e.c = e.n /\ e.cover /\ e.far <= 1 /\ e.dunits <= 1 /\ e.units <= 1
 
+\* op = "jac_big": large and extreme-aspect shapes (n up to 65, m up to 130, tall m >= 8n, wide 1 x n and 2 x n) of the affine and quadratic
+\* families: the same exact expectations, checked entry by entry and point by point in integer arithmetic by the harness on the scaled integers;
+\* logged: number of wrong entries (first one for the replay), number of illegal evaluation points, coverage, the shape.
+BigOK(e) == ~e.panic /\ e.r = e.m /\ e.c = e.n /\ e.wrong = 0 /\ e.pbad = 0 /\ e.cover
+
 Explained(e) ==
   CASE e.op = "jac_affine" -> AffineOK(e)
     [] e.op = "jac_quad" -> QuadOK(e)
+    [] e.op = "jac_big" -> BigOK(e)
     [] e.op \in {"jac_smooth", "jac_sq"} -> SmoothOK(e)
     [] OTHER -> FALSE
 
